@@ -678,7 +678,7 @@ EMPTY_STRATEGIES = [(15, None), (48, None), (48, "#forcebst"), (7, None), (61, N
 
 def empty_shape_jobs(rng, tier):
     """-> [(origin, job)]: every EMPTY_SHAPES entry x empty-body spelling x strategy (quick: each shape under the binary-tree
-    and the macro strategy with the blank body + two more (spelling, strategy) pairs drawn from ck.rng; thorough: all)."""
+    and the macro strategy with the blank body + two more (spelling, strategy) pairs drawn from ck.rng; thorough: every spelling under both + one more strategy)."""
     out = []
     k = 0
     for spec in EMPTY_SHAPES + [("embedded:" + e[0],) + tuple(e[1:]) for e in EMBEDDED_SHAPES]:
@@ -689,7 +689,7 @@ def empty_shape_jobs(rng, tier):
             combos = [(" " if len(bodies) > 1 else "", EMPTY_STRATEGIES[0]), (" " if len(bodies) > 1 else "", EMPTY_STRATEGIES[1]),
                       (rng.choice(bodies[4:] or bodies), rng.choice(EMPTY_STRATEGIES)), (rng.choice(bodies), rng.choice(EMPTY_STRATEGIES[2:]))]
         else:
-            combos = [(b, st) for b in bodies for st in EMPTY_STRATEGIES]
+            combos = [(b, st) for b in bodies for st in [EMPTY_STRATEGIES[0], EMPTY_STRATEGIES[1], rng.choice(EMPTY_STRATEGIES[2:])]]
         seen = set()
         for body, (pf, hdr) in combos:
             if (body, pf, hdr) in seen:
@@ -966,7 +966,7 @@ def gather_jobs(ck, tier):
                 j["header"] = spec[2]
             jobs.append((f"probe2:{name}", j))
     jobs.extend(line_char_jobs(rng, tier))
-    n_rand2 = 90 if tier == "quick" else 900
+    n_rand2 = 90 if tier == "quick" else 600
     for i in range(n_rand2):
         cert = CERTS[(i + 2) % len(CERTS)]
         ns = NAMESPACES[(i + 1) % len(NAMESPACES)]
